@@ -110,6 +110,9 @@ structure Cfg where
   playAgainResponds : Bool
   /-- `onPlay`: `status = statusPlaying` only when the response that was written is 200 -/
   playingNeedsOk : Bool
+  /-- `onPack`: an interleaved packet from a client whose session is not recording is dropped
+      (before the fix it was handed to the place-holder stream, whose error ended the session) -/
+  framesDropped : Bool
   /-- `newResponse` sets the Session header of every response to the session's id, which is
       assigned once (in `newSession`), and nothing else touches that header -/
   sidCarried : Bool
@@ -319,14 +322,33 @@ def step (cfg : Cfg) (s : Sess) (r : Req) (e : Env) : Sess × List Ev :=
 def disconnect (s : Sess) : Sess × List Ev :=
   if s.closed then (s, []) else finish s
 
-/-- what the client sends -/
+/-- what the client sends: a request, a hang-up, or an interleaved frame (`ch` its channel byte,
+    `hdrOk`: the payload starts with an RTP header that parses) -/
 inductive Input
   | req (r : Req) (e : Env)
   | hangup
+  | frame (ch : Int) (hdrOk : Bool)
+
+/-- `ReadPacket`: the frame is handed to `onPack` when its channel is one of the negotiated four
+    (first match) and, on a media channel, its RTP header parses; otherwise it is skipped with a warning -/
+def frameAccepted (s : Sess) (ch : Int) (hdrOk : Bool) : Bool :=
+  let c := s.tr.channels
+  if ch == c.c0 then hdrOk
+  else if ch == c.c1 then true
+  else if ch == c.c2 then hdrOk
+  else ch == c.c3
+
+/-- `receive` of a `$` frame, then `onPack`: a recording session writes the packet to its stream
+    (nothing the client sees); any other session drops it — or, before the fix, ends -/
+def onFrame (cfg : Cfg) (s : Sess) (ch : Int) (hdrOk : Bool) : Sess × List Ev :=
+  if s.closed then (s, [])
+  else if s.status == .recording || cfg.framesDropped || !frameAccepted s ch hdrOk then (s, [])
+  else finish s
 
 def stepInput (cfg : Cfg) (s : Sess) : Input → Sess × List Ev
   | .req r e => step cfg s r e
   | .hangup => disconnect s
+  | .frame ch hdrOk => onFrame cfg s ch hdrOk
 
 /-- run a whole dialogue; one event list per input -/
 def run (cfg : Cfg) : Sess → List Input → Sess × List (List Ev)
@@ -464,6 +486,7 @@ def wdisconnect (s : WSess) : WSess × List Ev :=
 def wstepInput (gate : Status → Method → Bool) (s : WSess) : Input → WSess × List Ev
   | .req r e => wstep gate s r e
   | .hangup => wdisconnect s
+  | .frame _ _ => (s, [])       -- the control channel carries WSP text messages only
 
 def wrun (gate : Status → Method → Bool) : WSess → List Input → WSess × List (List Ev)
   | s, [] => (s, [])
